@@ -5,6 +5,7 @@
 import Krp.Lemmas.HubSpec
 import Krp.Lemmas.Registry
 import Krp.Props.C12
+import Krp.Lemmas.TokensFixed
 namespace Krp
 open HubSt
 
@@ -125,5 +126,79 @@ theorem C03_undelegate_messages_sum (e : HubEnv) (claim : Nat) (ms : List Msg)
 
 /-! Non-vacuity: rate 0.9, payment 1000 → 1111 tokens, worth at most the payment. -/
 example : decDiv 1000 900000000000000000 = 1111 ∧ 1111 * 900000000000000000 ≤ 1000 * D := by decide
+
+
+/-! ### the State query in the composed system, in every reachable state -/
+
+theorem env_tokens (s : Sys) (e : EnvOp) :
+    (s.env e).hub.bsei = s.hub.bsei ∧ (s.env e).hub.stsei = s.hub.stsei := by
+  by_cases h : ∃ u b a, e = .seedLegacy u b a
+  · obtain ⟨u, b, a, rfl⟩ := h; exact ⟨rfl, rfl⟩
+  · have := env_same s e (fun u b a he => h ⟨u, b, a, he⟩)
+    rw [this.hub]; exact ⟨rfl, rfl⟩
+
+/-- the token contracts registered in the hub stay registered through every history: transactions
+    by anyone (the owner included — the addresses are write-once), failures, environment events -/
+theorem tokens_registered_reachable (s : Sys) (l : List Step)
+    (hb : s.hub.bsei = some bseiA) (hs : s.hub.stsei = some stseiA) :
+    (s.steps l).hub.bsei = some bseiA ∧ (s.steps l).hub.stsei = some stseiA :=
+  steps_inv (fun x => x.hub.bsei = some bseiA ∧ x.hub.stsei = some stseiA)
+    (fun x m x' ms hp hx =>
+      have k := handle_tokens x x' m ms hx
+      ⟨k.bsei _ hp.1, k.stsei _ hp.2⟩)
+    (fun x e hp => by rw [(env_tokens x e).1, (env_tokens x e).2]; exact hp) l s ⟨hb, hs⟩
+
+/-- **The State query, in the composed system.** With the two tokens registered, whenever stake is
+    bonded the rates the hub reports are the bonded stake of each pool over that token contract's
+    own total supply of the same moment plus the requests waiting in the open batch — and since the
+    supply is the sum of all account balances (`Token.WF`, C18), over *the holders' balances*. -/
+theorem C03_system_state_query (s : Sys) (st : HubSt)
+    (hb : s.hub.bsei = some bseiA) (hs : s.hub.stsei = some stseiA) (wb : s.bsei.WF) (ws : s.stsei.WF)
+    (hx : s.hub.actualState s.hubEnv = .ok st)
+    (hd : s.delegationsOf hubA ≠ []) (hbd : s.hub.bBond + s.hub.sBond ≠ 0) :
+    st.bRate = rateOf st.bBond (sumOn s.bsei.holders s.bsei.bal) s.hub.reqB ∧
+    st.sRate = rateOf st.sBond (sumOn s.stsei.holders s.stsei.bal) s.hub.reqS ∧
+    st.bRate * (s.bsei.supply + s.hub.reqB) ≤ (if st.bBond = 0 then s.bsei.supply + s.hub.reqB else st.bBond) * D := by
+  obtain ⟨bs, ss, hbs, hss, hrb, hrs⟩ := C03_reported_rates s.hub st s.hubEnv hx hd hbd
+  have e1 : bs = s.bsei.supply := by
+    simp only [bSupplyQ, hb, Sys.hubEnv, Sys.supplyOf, if_true] at hbs
+    injection hbs with hbs; exact hbs.symm
+  have e2 : ss = s.stsei.supply := by
+    simp only [sSupplyQ, hs, Sys.hubEnv, Sys.supplyOf] at hss
+    rw [if_pos trivial] at hss
+    injection hss with hss; exact hss.symm
+  subst e1; subst e2
+  refine ⟨by rw [wb.sum]; exact hrb, by rw [ws.sum]; exact hrs, ?_⟩
+  rw [hrb]
+  split
+  · rename_i hz
+    split
+    · exact Nat.le_of_eq (Nat.mul_comm _ _)
+    · rename_i hne
+      have : s.bsei.supply + s.hub.reqB = 0 := by
+        rcases hz with hz | hz
+        · exact absurd hz hne
+        · exact hz
+      rw [this]; simp
+  · rename_i hz
+    rw [if_neg (by intro h; exact hz (Or.inl h))]
+    exact Nat.div_mul_le_self _ _
+
+/-- **Every reachable state.** After any history from a state with both tokens registered and
+    well-formed ledgers (genesis), the State query prices each token at bonded stake over the sum of
+    the holders' balances plus the pending requests. -/
+theorem C03_reachable_state_query (s : Sys) (l : List Step) (st : HubSt)
+    (hb : s.hub.bsei = some bseiA) (hs : s.hub.stsei = some stseiA) (wb : s.bsei.WF) (ws : s.stsei.WF)
+    (hx : (s.steps l).hub.actualState (s.steps l).hubEnv = .ok st)
+    (hd : (s.steps l).delegationsOf hubA ≠ []) (hbd : (s.steps l).hub.bBond + (s.steps l).hub.sBond ≠ 0) :
+    st.bRate = rateOf st.bBond (sumOn (s.steps l).bsei.holders (s.steps l).bsei.bal) (s.steps l).hub.reqB ∧
+    st.sRate = rateOf st.sBond (sumOn (s.steps l).stsei.holders (s.steps l).stsei.bal) (s.steps l).hub.reqS := by
+  have t := tokens_registered_reachable s l hb hs
+  have w := C18_reachable s l wb ws
+  have r := C03_system_state_query (s.steps l) st t.1 t.2 w.1 w.2.1 hx hd hbd
+  exact ⟨r.1, r.2.1⟩
+
+/-! Non-vacuity of `C03_reachable_state_query`: genesis has both tokens registered. -/
+example : genesisSys.hub.bsei = some bseiA ∧ genesisSys.hub.stsei = some stseiA := by decide
 
 end Krp
